@@ -2227,7 +2227,12 @@ static Verdict run(const Case& c)
    }
    R_.destroy();
    for(auto& f : R_.files) unlink(f.c_str());
-   if(R_.ownDir) rmdir(R_.dir.c_str());
+   if(R_.ownDir && R_.dir.compare(0, 20, "/var/tmp/c20-replay-") == 0)
+   {
+      // the replay directory may still hold the files written by the case
+      std::string cmd = "rm -rf '" + R_.dir + "'";
+      if(system(cmd.c_str()) != 0) rmdir(R_.dir.c_str());
+   }
    e.count("steps", steps);
    if(R_.hadRat) e.count("case.rational_entry_point");
    if(R_.modAfterAdd) e.count("case.modification_after_add");
